@@ -121,9 +121,12 @@ func (m *connManager) Connect(ctx context.Context, target *topoapi.Object) error
 			log.Infof("Connection state changed for Target '%s': %s", target.ID, state)
 
 			// If the channel is active, ensure a connection is added to the manager.
-			// If the channel is idle, do not change its state (this can occur when
-			// connected or disconnected).
-			// In all other states, remove the connection from the manager.
+			// In all other states, remove the connection from the manager: the channel
+			// leaves READY only when its transport is lost, and the connection that is
+			// established next is a new one. This includes IDLE - if the removal waited
+			// for CONNECTING, a re-dial that completes before this goroutine reads the
+			// state again (READY, IDLE, READY) would leave the old connection in place.
+			// If the channel is idle, ask it to connect again.
 			switch state {
 			case connectivity.Ready:
 				if conn == nil {
@@ -131,6 +134,10 @@ func (m *connManager) Connect(ctx context.Context, target *topoapi.Object) error
 					m.addConn(conn)
 				}
 			case connectivity.Idle:
+				if conn != nil {
+					m.removeConn(conn.ID())
+					conn = nil
+				}
 				clientConn.Connect()
 			default:
 				if conn != nil {
